@@ -19,8 +19,8 @@ TRUSTED = [
     "Gen/FamTables.v printed from the imported tables (ALT_QUALIFIERS used for qualifier standardisation)",
 ]
 ASSUMES = [
-    "no task name is a word-delimited part of another node's text (names t<i>); the separate 'names' stream probes this "
-    "assumption on the implementation and reports the known finding",
+    "no task name is a word-delimited part of another node's text (names t<i>); corpus cases of kind 'names' probe this "
+    "assumption on the implementation and report the known finding",
     "no parameters, xtriggers, workflow-state polling nodes, families (C15), offsets on the right of an arrow",
     "cylc7 back-compat mode off",
 ]
@@ -35,6 +35,7 @@ SIG_EOC = "c14:plain-node-ends-one-chain-and-is-inside-another"
 SIG_BADNODE = "c14:bad-node-on-non-last-line-accepted"
 SIG_NAMES = "c14:name-is-word-part-of-another-node"
 SIG_EMPTYCOND = "c14:dangling-operator-in-conditional-left-accepted"
+SIG_RESUB = "c14:offset-node-with-alias-qualifier-substituted-twice"
 
 
 # ------------------------------------------------------------------ AST helpers
@@ -210,6 +211,19 @@ def eoc_unsafe(ast):
                     continue
                 (finals if i == len(ch["groups"]) - 1 else mids).add(node_txt(n))
     return (finals & mids) - heads
+
+
+def resub_prone(ast):
+    """some head expression has NAME[OFF]:alias next to another node NAME[OFF] whose output is that alias's standard name"""
+    for ch in ast:
+        ns = G.expr_nodes(ch["head"])
+        for a in ns:
+            if a["off"] and a["q"] in ALIAS:
+                for b in ns:
+                    if b is not a and b["n"] == a["n"] and b["off"] == a["off"] and b["q"] != a["q"] \
+                            and std(b["q"]) == ALIAS[a["q"]]:
+                        return True
+    return False
 
 
 # ------------------------------------------------------------------ rendering
@@ -569,6 +583,9 @@ def corpus_cases():
         out.append({"kind": "names", "texts": texts})
     # finding: empty operand before the arrow when the left side has | or ( )
     out.append({"kind": "emptycond", "texts": ["t0 | => t2", "t0 | t1 & => t2", "(t0 & ) => t2", "( | t0) => t2"]})
+    # finding: NAME[OFFSET]:alias is substituted inside an already standardised NAME[OFFSET]:output
+    out.append({"kind": "resub", "texts": ["t1[-P1] | t1[-P1]:succeed => t2",
+                                           "t1[-P1]:failed & t1[-P1]:fail | t3 => t2"]})
     # regression: a well-formed graph in all styles
     ast = [{"head": ["|", ["&", ["N", _n(0, "fail", True)], ["N", _n(1, None, False, 1)]], ["()", ["|", ["N", _n(2, "finish")], ["N", _n(3, "x")]]]],
             "groups": [[rn(_n(4)), rn(_n(5, "y1", True))], [rn(_n(6)), rn(_n(7), True)]]},
@@ -615,7 +632,7 @@ class GraphStream(Stream):
         return corpus_cases()
 
     def gen(self, rng, tier):
-        n_valid, n_mal = (48, 30) if tier == "quick" else (2500, 1200)
+        n_valid, n_mal = (64, 36) if tier == "quick" else (2500, 1200)
         cases = []
         for i in range(n_valid):
             cases.append(make_valid_case(rng, rng.choice([0, 1, 1, 2]), 8))
@@ -674,7 +691,7 @@ class GraphStream(Stream):
                 if "exc" not in x:
                     return "malformed graph accepted: %r" % x["text"]
             return None
-        if c["kind"] == "names":
+        if c["kind"] in ("names", "resub"):
             for x in res:
                 if "garbled" in x:
                     return "stored trigger expression is not the one written: %r -> %s" % (x["text"], x["garbled"])
@@ -725,6 +742,13 @@ class GraphStream(Stream):
             return SIG_NAMES
         if c["kind"] == "emptycond" and all("garbled" in x for x in res):
             return SIG_EMPTYCOND
+        if c["kind"] == "resub" and all("garbled" in x for x in res):
+            return SIG_RESUB
+        if "ast" in c and c["kind"] != "malformed" and resub_prone(c["ast"]) and all(
+                "exc" in x or any("ed&" in m or "ed|" in m or "ed'" in m or "ed)" in m for m in x.get("garbled", ["ed'"]))
+                for x in res) and any("garbled" in x for x in res):
+            # generated AST that happens to contain the pattern: the only defect seen is the doubled suffix
+            return SIG_RESUB
         if c["kind"] in ("eoc-unsafe", "inconsistent") and eoc_unsafe(c["ast"]):
             # narrow: every rendering behaves exactly like the reference with the code's
             # per-node-text end-of-chain rule applied to that rendering's own lines
@@ -780,8 +804,29 @@ class GraphStream(Stream):
 STREAMS = [GraphStream()]
 
 META = {
-    "level_text": "see Props/C14.v (placeholder)",
-    "level_note": "placeholder",
-    "technique": "Coq proof + in-Coq differential correspondence + reference-semantics oracle",
+    "level_text": (
+        "Coq theorems over the token-level model of parse_graph (Model/GraphParse.v + Model/GraphBase.v) and the graph AST / "
+        "reference semantics / renderers of Model/GraphAst.v, for ALL graphs and presentations (no bounds): "
+        "c14_parse_render - for every well-formed graph (consistent optionality, Coq predicate wf_graph) that is eoc_safe, every "
+        "presentation (each chain cut into pairs/sub-chains anywhere, lines in any order, any line duplicated; each line laid out "
+        "on physical lines broken only next to => & |, arbitrary blanks between tokens, comments, blank and comment-only lines) "
+        "is accepted and the parser state contains exactly the graph's triggers (the written expressions with qualifiers "
+        "standardised, :succeeded explicit, finish expanded), optionality assertions (with the end-of-chain rule) and tasks; "
+        "presentation-insensitivity is the corollary c14_presentation_insensitive; c14_malformed_rejected - anything accepted has no "
+        "leading/dangling operator, no && / ||, and no pair with OR on the right, suicide on the left, unbalanced parentheses or an "
+        "empty node (plain AND lists / right side). Without eoc_safe the theorem is false in the faithful model "
+        "(c14_chains_vs_pairs_refuted) and an empty operand in a conditional left side is accepted "
+        "(c14_empty_operand_conditional_refuted): both are listed findings. "
+        "The model is tied to graph_parser.py by differential runs (each generated AST in 8 renderings, inconsistent ASTs, "
+        "10 malformed mutation classes) compared inside Coq on truth tables of the stored expressions and the optionality map; "
+        "the same Coq run also evaluates the theorem's statement (wf_graph, eoc_safe, state_means) on every generated case; a "
+        "Python reference semantics is the independent oracle on the implementation."),
+    "level_note": (
+        "token-level hand model: a node NAME[OFFSET]:QUAL? is one token, regexes are token classes, so character-level effects "
+        "are outside the theorems and are probed on the implementation by corpus cases: two further findings live there (bad node "
+        "text accepted on non-last lines; names that are word-parts of other node texts are substituted inside them). Not "
+        "modelled: parameters, xtriggers, workflow-state nodes, families (C15), right-hand offsets, redundant parentheses on the "
+        "right, WorkflowConfig/TaskDef level. Trusted: Coq kernel+VM, harness, tokens->text printer."),
+    "technique": "Coq proof (layered: physical text -> logical lines -> pairs -> assertion stores -> reference semantics) + in-Coq differential correspondence + reference-semantics oracle",
     "design_ref": "5/C14",
 }
